@@ -94,9 +94,14 @@ def eval_case(case):
     def answer(k):
         reqs.append(k)
         if len(reqs) > 300:
-            return b"\0" * k
-        # requests of another size than the digit protocol's 8 bytes are served from the same stream, 8 bytes at a time
-        return b"".join(next(stream, default).to_bytes(8, "little") for _ in range((k + 7) // 8))[:k]
+            return ffi.varying_filler(len(reqs), k)
+        if k == 8:
+            return next(stream, default).to_bytes(8, "little")
+        # requests of another size than the digit protocol's 8 bytes: from the same stream, 8 bytes at a time, then a varying filler
+        chunks = [next(stream, None) for _ in range((k + 7) // 8)]
+        if any(c is None for c in chunks):
+            return ffi.varying_filler(len(reqs), k)
+        return b"".join(c.to_bytes(8, "little") for c in chunks)[:k]
     rng = L.rng(answer)
     ct = L.buf(L.size["lq_ciphertext"])
     sym_e = ctypes.create_string_buffer(b"\x5C" * (n + 32), n + 32)
